@@ -1010,6 +1010,9 @@ func ApplyUpdate(u Update, base Item, env Env, keyAttrs []string) UpdateResult {
 				return UpdateResult{Spec: true, Why: "ADD/DELETE operand"}
 			}
 			cur, found, wrong := lookup(base, a.path)
+			if last := a.path[len(a.path)-1]; last.IsIndex && !found {
+				weak, why = true, "ADD/DELETE on a list element past the end"
+			}
 			if !found && len(a.path) > 1 {
 				_, pfound, _ := lookup(base, a.path[:len(a.path)-1])
 				if !pfound || wrong {
